@@ -54,7 +54,7 @@ func conditioningMethodReturn(
 	for _, defineArgT := range defineArgTs {
 		if defineArgT.HasDefault() {
 			variants := methodT.GetVariants()
-			return &variants[len(removeBlockTypeArgs(evaluatedArgs))]
+			return variants[len(removeBlockTypeArgs(evaluatedArgs))].DeepCopy()
 		}
 
 		if defineArgT.IsUnionType() {
@@ -64,7 +64,7 @@ func conditioningMethodReturn(
 
 					if variant.GetType() == argT.GetType() || (isAny) {
 						variants := methodT.GetVariants()
-						return &variants[idx]
+						return variants[idx].DeepCopy()
 					}
 				}
 			}
@@ -77,7 +77,7 @@ func conditioningMethodReturn(
 
 			if defineArgT.GetType() == argT.GetType() || (isAny) {
 				variants := methodT.GetVariants()
-				return &variants[idx]
+				return variants[idx].DeepCopy()
 			}
 		}
 	}
